@@ -218,6 +218,38 @@ func runRacyScenario(args []string) {
 		_ = s.WriteClose(1000, nil)
 		wg.Wait()
 		drainAsync(s)
+	case "session-first-use": // the very first uses of a connection's session storage, from several goroutines at once
+		s, c, _, _, err := handshakePair(&gws.ServerOption{}, &gws.ClientOption{}, newRecorder(), newRecorder())
+		mustOK(err)
+		go s.ReadLoop()
+		go c.ReadLoop()
+		for _, conn := range []*gws.Conn{c, s} {
+			const n = 8
+			start := make(chan struct{})
+			var wg sync.WaitGroup
+			for g := 0; g < n; g++ {
+				wg.Add(1)
+				go func(g int) {
+					defer wg.Done()
+					<-start
+					conn.Session().Store(fmt.Sprintf("k%d", g), g)
+				}(g)
+			}
+			close(start)
+			wg.Wait()
+			// every Store has returned: one map must hold all of them
+			for g := 0; g < n; g++ {
+				if v, ok := conn.Session().Load(fmt.Sprintf("k%d", g)); !ok || v != g {
+					fmt.Fprintln(os.Stderr, "session-lost-a-completed-store")
+					return
+				}
+			}
+			if conn.Session().Len() != n {
+				fmt.Fprintln(os.Stderr, "session-len-differs")
+				return
+			}
+		}
+		_ = s.WriteClose(1000, nil)
 	default:
 		fmt.Println("unknown scenario")
 		return
@@ -243,7 +275,7 @@ func drainAsync(c *gws.Conn) {
 }
 
 func genRacy(g *Gen) {
-	for _, sc := range []string{"bc-vs-write", "client-file-vs-bc", "teardown-vs-writer", "mixed-writers", "parallel-handlers", "close-vs-writers"} {
+	for _, sc := range []string{"bc-vs-write", "client-file-vs-bc", "teardown-vs-writer", "mixed-writers", "parallel-handlers", "close-vs-writers", "session-first-use"} {
 		for i := 0; i < g.pick(1, 5); i++ {
 			g.Emit("racy %s %d", sc, i)
 		}
